@@ -323,6 +323,27 @@ func (c *c03) RunCase(r *fw.Rec, cs fw.Case) {
 		r.Violate("globals-differ", "optimized and unoptimized code compute different globals", detail)
 		return
 	}
+	// the same pair under small allocation budgets: the limit error and its reported position must agree too
+	if totalRemoved > 0 && cs.Index%4 == 1 && len(src) < 20000 {
+		for _, budget := range []int64{1, 2, 3, 4, 6, 9, 14} {
+			rawMaxAllocs = budget
+			a2 := runRaw(optC, optC.BC, 2_000_000, nil)
+			b2 := runRaw(keepC, keepC.BC, 2_000_000, nil)
+			rawMaxAllocs = 3_000_000
+			r.EvalN(2)
+			r.Inc("alloc-budget-pairs")
+			if a2.Aborted || b2.Aborted || a2.Panic != nil || b2.Panic != nil {
+				continue
+			}
+			if a2.ErrText != b2.ErrText {
+				detail["MaxAllocs"] = budget
+				detail["optimized"] = map[string]interface{}{"error": a2.ErrText}
+				detail["keepdead"] = map[string]interface{}{"error": b2.ErrText}
+				r.Violate("error-differs:alloc-limit", "under an allocation budget optimized and unoptimized code report different errors / positions", detail)
+				return
+			}
+		}
+	}
 	if r.WantSample() && totalRemoved > 3 && len(src) < 700 {
 		r.Sample(map[string]interface{}{"source": src, "instructions_removed": totalRemoved, "error": a.ErrText})
 	}
@@ -395,6 +416,8 @@ func c03Big(r *rand.Rand) string {
 }
 
 var c03Directed = []string{
+	"f := func(n) {\n  for i := 0; i < n; i++ {\n    if i == 1 {\n      return i\n      i = 9\n    }\n  }\n  m := {}\n  a := []\n  return [m, a]\n}\nr := f(0)\ns := f(3)",
+	"g := func(c) {\n  if c {\n    return 1\n    c = 2\n  } else {\n    c = 3\n  }\n  []\n  x := {}\n  return x\n}\nr := [g(false), g(true)]",
 	"f := func(a, b) { if a { return 1 } else { return 2 }; x := a || b; return x }\nr1 := f(true, 0); r2 := f(false, 0)",
 	"f := func(a, b) { if a > 0 { return a }; for i := 0; i < 3; i++ { if i == b { return i; b = 99 } ; continue; a = 5 }; return a || b }\nr := [f(1, 2), f(0, 1), f(0, 7), f(-1, 0)]",
 	"f := func(x) { return x; for { x++ }; return x && 1 }\nr := f(3)",
